@@ -67,7 +67,13 @@ def _reads(e):
                     yield k, (True, True)
 
 
-def crosstalk_sites(w: World, merge_groups: list[set] | None = None, labels: dict | None = None):
+import re
+
+_RE_MEM = re.compile(r"\bmem:(\w+)")
+
+
+def crosstalk_sites(w: World, merge_groups: list[set] | None = None, labels: dict | None = None,
+                    memory_ok: bool = False):
     """List of (reader entity, signal, emitters) with >= 2 possible emitters on the networks the
     operand reads.  `labels` maps constant-combinator entity numbers to declared names;
     `merge_groups` are sets of declared names intentionally summed on one wire."""
@@ -98,6 +104,18 @@ def crosstalk_sites(w: World, merge_groups: list[set] | None = None, labels: dic
             if sg and 2 in e.net:
                 ems += net_emit.get(e.net[2], [])
             who = sorted({num for num, em in ems if em is None or key in em})
+            if memory_ok and len(who) >= 2:
+                # the two gates of one memory cell legitimately share the cell's network
+                seen_mod = set()
+                kept = []
+                for n in who:
+                    m = _RE_MEM.search(w.ents[n].desc or "")
+                    if m:
+                        if m.group(1) in seen_mod:
+                            continue
+                        seen_mod.add(m.group(1))
+                    kept.append(n)
+                who = kept
             if len(who) < 2:
                 continue
             names = {labels.get(n) for n in who}
